@@ -1,7 +1,7 @@
 (* C06 — A layer tarball faithfully and canonically serialises the built
    filesystem.  Property theorems only; proofs are in Proofs/TarProofs.v. *)
 From Apko Require Import Base.Prelude Model.Tar Spec.TarSpec Proofs.TarProofs Proofs.TarRoundtrip Proofs.TarOrder Proofs.TarLinks.
-From Apko Require Import Generated.C06Tar Model.TarBytes Spec.TarBytesSpec Proofs.TarBytesBlock Proofs.TarBytesProofs Proofs.TarBytesLayer.
+From Apko Require Import Generated.C06Tar Model.TarBytes Spec.TarBytesSpec Proofs.TarBytesBlock Proofs.TarBytesProofs Proofs.TarBytesLayer Proofs.TarBytesFuel Proofs.TarBytesShape.
 From Coq Require Import Sorting.Sorted.
 Open Scope string_scope. Open Scope list_scope.
 
@@ -216,11 +216,12 @@ Theorem c06_bytes_pax_record : forall k v rest, valid_pax_record k v = true ->
 Proof. exact pax_record_roundtrip. Qed.
 Print Assumptions c06_bytes_pax_record.
 
-(* c06_bytes_blocks — the stream is a whole number of 512-byte blocks and ends
-   with two zero blocks (writeTar closes the writer) *)
-Theorem c06_bytes_blocks : forall ms bs, forallb member_okb ms = true -> write_archive ms = Ok bs ->
+(* c06_bytes_blocks — for EVERY member list the writer accepts (any header, any
+   of the three formats, inside the envelope or not) the stream is a whole number
+   of 512-byte blocks and ends with two zero blocks (writeTar closes the writer) *)
+Theorem c06_bytes_blocks : forall ms bs, write_archive ms = Ok bs ->
   (List.length bs mod 512 = 0)%nat /\ exists pre, bs = pre ++ zeros 1024 /\ (List.length pre mod 512 = 0)%nat.
-Proof. exact bytes_blocks. Qed.
+Proof. exact bytes_blocks_all. Qed.
 Print Assumptions c06_bytes_blocks.
 
 (* c06_bytes_injective — canonicity: inside the envelope two different member
@@ -298,3 +299,15 @@ Example c06_layer_bytes_faithful_example :
   wfl_forest (has_hdr env_allhdr) f = true /\ whole_seconds_forest f = true /\
   forallb (entry_okb [(9%N, lit "hi")] cid_of) (walk env_allhdr f) = true.
 Proof. vm_compute. repeat split; reflexivity. Qed.
+
+(* c06_bytes_reader_total — the fuel of the reader model (length of the stream + 1
+   for the archive loop, length of the data + 1 for the records of an extended
+   header) is never exhausted, on ANY byte string: an answer of read_archive is an
+   answer of the modelled Reader, never an artefact of the fuel *)
+Theorem c06_bytes_reader_total : forall bs, read_archive bs <> OutOfFuel.
+Proof. exact read_archive_fuel. Qed.
+Print Assumptions c06_bytes_reader_total.
+
+Theorem c06_bytes_pax_total : forall fuel s m, (List.length s < fuel)%nat -> parse_pax fuel s m <> OutOfFuel.
+Proof. exact parse_pax_fuel. Qed.
+Print Assumptions c06_bytes_pax_total.
